@@ -1,8 +1,10 @@
 package ast
 
 import (
+	"cmp"
 	"fmt"
 	"os"
+	"slices"
 	"sync"
 
 	"github.com/dominikbraun/graph"
@@ -46,7 +48,10 @@ func (tfg *TaskfileGraph) Visualize(filename string) error {
 }
 
 func (tfg *TaskfileGraph) Merge() (*Taskfile, error) {
-	hashes, err := graph.TopologicalSort(tfg.Graph)
+	// Use a stable sort: the order of Taskfiles that do not include each other
+	// (e.g. several includes of one file) decides which of them is merged last
+	// and must not change from one run to the next
+	hashes, err := graph.StableTopologicalSort(tfg.Graph, func(a, b string) bool { return a < b })
 	if err != nil {
 		return nil, err
 	}
@@ -86,6 +91,14 @@ func (tfg *TaskfileGraph) Merge() (*Taskfile, error) {
 				if !ok {
 					return fmt.Errorf("task: Failed to get merge options")
 				}
+
+				// The reader records the includes of a file in the order in which
+				// they finished loading: merge them in the order of declaration
+				includes = slices.Clone(includes)
+				declared := slices.Collect(vertex.Taskfile.Includes.Keys())
+				slices.SortStableFunc(includes, func(a, b *Include) int {
+					return cmp.Compare(slices.Index(declared, a.Namespace), slices.Index(declared, b.Namespace))
+				})
 
 				// Merge the included Taskfiles into the parent Taskfile
 				for _, include := range includes {
